@@ -127,6 +127,13 @@ def make(ctx, rng, kind, n):
         if kind.endswith('compiled'):
             ly.compile(n)
         return ly
+    if kind == 'CliffordCircuit:random':
+        # unspecified (resampling) gates mixed with specified ones: brick wall / on-site / hand-placed
+        c = rng.choice([lambda: pc.brickwall_rcc(n if n % 2 == 0 else n + 1, 2), lambda: pc.onsite_rcc(n), lambda: pc.global_rcc(n)])()
+        c.take(NP.mk_gate(gen.rgate(rng, M, c.N, kinds=('gen', 'named'))))
+        if c.N >= 2:
+            c.gate(0, 1)
+        return c
     if kind.startswith('CliffordCircuit'):
         c = NP.build_circuit(n, [[0, gen.rgate(rng, M, n, kinds=('gen', 'fwd', 'both', 'named'))] for _ in range(rng.randint(1, 5))])
         if kind.endswith('compiled'):
@@ -136,7 +143,7 @@ def make(ctx, rng, kind, n):
 
 
 KINDS = ['Pauli', 'PauliList', 'PauliMonomial', 'PauliPolynomial', 'CliffordMap', 'StabilizerState', 'CliffordGate:gen', 'CliffordGate:maps', 'CliffordGate:fwd',
-         'CliffordLayer', 'CliffordLayer:compiled', 'CliffordCircuit', 'CliffordCircuit:compiled']
+         'CliffordLayer', 'CliffordLayer:compiled', 'CliffordCircuit', 'CliffordCircuit:compiled', 'CliffordCircuit:random']
 
 
 def c_copy(ctx, args):
@@ -163,9 +170,21 @@ def c_copy(ctx, args):
         for first, second, who in ((c, o, 'copy'), (o, c, 'original')):
             other0 = snap(second)
             for _ in range(2):
-                first.take(NP.mk_gate(gen.rgate(rng, ctx.model, n, kinds=('gen', 'named'))))
+                first.take(NP.mk_gate(gen.rgate(rng, ctx.model, getattr(first, 'N', None) or n, kinds=('gen', 'named'))))
             if snap(second) != other0:
                 return {'kind': 'oracle', 'where': 'np:taking gates on the %s of a %s changed the other one' % (who, kind), 'observed': str(snap(second))[:300], 'expected': str(other0)[:300], 'tags': ['shared', kind]}
+        s0 = snap(o)
+    if kind.startswith('CliffordCircuit') or kind.startswith('CliffordLayer'):
+        # give data to every gate of the copy (freeze a random gate, re-specify a specified one): the original must not notice
+        def gates_of(x):
+            if hasattr(x, 'gates'):
+                return list(x.gates)
+            return [g for ly in x.layers_forward() for g in ly.gates]
+        before = snap(o)
+        for g in gates_of(c):
+            g.set_generator(NP.P(gen.rpauli(rng, g.n, herm=True, nonzero=True)))
+        if snap(o) != before:
+            return {'kind': 'oracle', 'where': 'np:specifying the gates of the copy of a %s changed the original' % kind, 'observed': str(snap(o))[:300], 'expected': str(before)[:300], 'tags': ['shared', kind]}
         s0 = snap(o)
     scramble(c)
     if snap(o) != s0:
